@@ -295,7 +295,9 @@ func runC13(c *Ctx) {
 			c.Unresolved("C13.G1", v.key+".IsValidOriginalDocument")
 			continue
 		}
-		c.CheckGuard("C13.G1", v.key+":id-refused", f, nil, cmpReject(`doc.ID() != "" rejected`, token.NEQ, func(s string) bool { return strings.Contains(s, ").ID(") }, pathIs(`""`)))
+		c.CheckGuard("C13.G1", v.key+":id-refused", f, nil, cmpReject(`doc.ID() != "" rejected`, token.NEQ, func(s string) bool {
+			return strings.Contains(s, ").ID(") || (strings.Contains(s, ").GetStringValue(") && strings.HasSuffix(s, `,"id")`))
+		}, pathIs(`""`)))
 		if v.key == "didvalidator" {
 			c.CheckGuard("C13.G1", v.key+":context-refused", f, nil, cmpReject("len(context) != 0 rejected", token.NEQ, func(s string) bool { return strings.HasPrefix(s, "len(") && strings.Contains(s, ").Context(") }, pathIs("0")))
 		}
